@@ -30,7 +30,7 @@ def replay_case(case):
 
 def finish(ctx, merged):
     c = merged["counters"]
-    need = ["c06_transitions_checked", "c06_post_completion_checked", "c06_real_post_completion_checked"] if PROPERTY == "C06" else         ["c07_evaluations_checked", "c07_argmax_checked", "c07_real_steps_checked", "c07_real_argmax_checked", "c07_ad_evaluations_checked"]
+    need = ["c06_transitions_checked", "c06_post_completion_checked", "c06_real_post_completion_checked"] if PROPERTY == "C06" else         ["c07_evaluations_checked", "c07_argmax_checked", "c07_real_steps_checked", "c07_real_argmax_checked", "c07_ad_evaluations_checked", "c07_bigidx_checked", "c07_bigidx_unsorted_iteration_orders"]
     missing = [k for k in need if not c.get(k)]
     if missing:
         return {"harness_error": f"vacuous: {missing}"}
